@@ -148,10 +148,18 @@ int cp_etrs_ver(size_t thres, const bn_t *td, const bn_t *y, size_t max,
 	ec_t w[2];
 
 	int d = max + size - thres;
-	bn_t *v = RLC_ALLOCA(bn_t, d);
-	bn_t *_v = RLC_ALLOCA(bn_t, d);
-	bn_t *_y = RLC_ALLOCA(bn_t, d);
-	ec_t *_t = RLC_ALLOCA(ec_t, d);
+	bn_t *v, *_v, *_y;
+	ec_t *_t;
+
+	/* The arrays below hold the max trapdoors and size - thres signatures. */
+	if (thres < 1 || thres > size) {
+		return 0;
+	}
+
+	v = RLC_ALLOCA(bn_t, d);
+	_v = RLC_ALLOCA(bn_t, d);
+	_y = RLC_ALLOCA(bn_t, d);
+	_t = RLC_ALLOCA(ec_t, d);
 
 	bn_null(l);
 	bn_null(n);
